@@ -77,6 +77,14 @@ def gen(ctx):
         seen.add(key)
         cfg = dict(scs[si - 1], scen=si, devof=DEVOF, ctrof=CTROF, model_park_under_lock=pul)
         out.append({"id": len(out), "cfg": cfg, "steps": [s for s in h if s["act"] == "step"], "expect": h[-1]})
+    # model-independent schedules (vf.blind_schedules)
+    nb = 200 if quick else 3000
+    for si, sc in enumerate(scs):
+        threads = ["arr", "loop"] + ["k_" + d for d in sorted(sc["regs"])] + (["cancel"] if sc["cancel"] else [])
+        for seq in vf.blind_schedules(ctx.rng, threads, nb, 20 + 8 * len(threads)):
+            out.append({"id": len(out), "cfg": dict(sc, scen=si + 1, devof=DEVOF, ctrof=CTROF, model_park_under_lock="blind"),
+                        "steps": [{"act": "step", "d": t} for t in seq], "expect": {}})
+    ctx.extra["blind_schedules"] = nb * len(scs)
     return out
 
 
